@@ -226,15 +226,21 @@ type world struct {
 	reused  int
 }
 
-var errs = map[int]error{}
+// errs: the error a failing responder k answers with. Built once (responders answer from their
+// own goroutines, two failing targets of one flow concurrently: no lazy initialisation here).
+var errs = func() map[int]error {
+	m := map[int]error{}
+	for k := 0; k <= 64; k++ {
+		m[k] = errors.New("E" + strconv.Itoa(k))
+	}
+	return m
+}()
 
 func errOf(k int) error {
 	if e, ok := errs[k]; ok {
 		return e
 	}
-	e := errors.New("E" + strconv.Itoa(k))
-	errs[k] = e
-	return e
+	return errors.New("E" + strconv.Itoa(k))
 }
 
 func newWorld() *world {
@@ -413,27 +419,40 @@ func (w *world) apply(line string) (ret string, evs []ev, blocked bool) {
 	w.mu.Lock()
 	evs = append(evs, w.log[start:]...)
 	w.mu.Unlock()
-	// harness's own record of what a correct table holds (the table is the source of truth for
-	// whether an erroring op changed it; the C06 oracle is only used on error-free histories)
+	// harness's own record of what a correct table holds, kept WITHOUT asking the table (the C06
+	// oracle compares the table with it also after operations that returned an error):
+	//   Insert: the old symbol is freed first; only that phase's unload pass can fail, and only if
+	//           the old symbol has a node – in which case its success shows as the Close of the old
+	//           node in the operation's events. If the free phase went through, the new symbol IS in
+	//           the table, whatever its load pass returned (C06.wiring_exact / C08.error_aborts_insert).
+	//   Free:   an error means the unload pass failed: nothing is removed.
+	//   Close:  frees one symbol after the other until a free fails: the symbols whose node was closed
+	//           are gone; symbols without a node leave no trace in the events, for them (only) the
+	//           table is asked.
 	isOK := strings.HasPrefix(ret, "ok")
+	closed := map[int]bool{}
+	for _, e := range evs {
+		if e.k == 'C' {
+			closed[e.subj] = true
+		}
+	}
 	switch f[0] {
 	case "ins":
 		if dNew == nil {
 			break
 		}
-		if isOK || w.tbl.Lookup(idOf(dNew.ID)) == sbNew {
+		old, had := w.cur[dNew.ID]
+		if isOK || !had || old.def.Kind == kNil || closed[dNew.ID] {
 			w.cur[dNew.ID] = &live{def: dNew, sb: sbNew}
-		} else if w.tbl.Lookup(idOf(dNew.ID)) == nil {
-			delete(w.cur, dNew.ID)
 		}
 	case "free":
 		k, _ := strconv.Atoi(f[1])
-		if isOK || w.tbl.Lookup(idOf(k)) == nil {
+		if isOK {
 			delete(w.cur, k)
 		}
 	case "close":
-		for k := range w.cur {
-			if isOK || w.tbl.Lookup(idOf(k)) == nil {
+		for k, l := range w.cur {
+			if isOK || closed[k] || (l.def.Kind == kNil && w.tbl.Lookup(idOf(k)) == nil) {
 				delete(w.cur, k)
 			}
 		}
